@@ -44,14 +44,28 @@ def clusters(seed):
     return out
 
 
+def rhomb(a, b, c, gamma):
+    g = np.radians(gamma)
+    return np.array([[a, 0, 0], [b * np.cos(g), b * np.sin(g), 0], [0, 0, c]])
+
+
+# narrow cells: every perpendicular width only just above the largest cutoff (5.2 A), so that the nearest image of a
+# bonded pair is often not the one obtained by rounding the fractional separation
+NCELLS = [('rhombic a=b=7 gamma=60', rhomb(7.0, 7.0, 8.0, 60.0)), ('rhombic a=b=7 gamma=120', rhomb(7.0, 7.0, 8.0, 120.0)),
+          ('triclinic 7.0 7.3 8.9 / 94 73 72', np.array([[7.03, 0, 0], [2.27, 6.93, 0], [2.59, -1.56, 8.37]])), ('orthorhombic 5.5 x 6 x 7', np.diag([5.5, 6.0, 7.0]))]
+NPAIRS = [('Cs', 'Cs'), ('Fr', 'Fr'), ('K', 'Rb'), ('Ba', 'O'), ('Cs', 'F'), ('C', 'C')]
+NGRID = [0.0, 0.2, 0.35, 0.45, 0.5, 0.55, 0.65, 0.8]
+
+
 def plan(tier, seed):
     scs = [dict(part='A', a=i) for i in range(len(ELS))]
+    scs += [dict(part='C', cell=ci, pair=pi) for ci in range(len(NCELLS)) for pi in range(len(NPAIRS))]
     shifts = 4 if tier == 'quick' else 10
     places = PLACEMENTS[::4] if tier == 'quick' else PLACEMENTS
     scs += [dict(part='B', cell=ci, cl=k, place=list(pl)) for ci in range(len(GCELLS)) for k in range(4) for pl in places]
     return dict(scenarios=scs, exhaustive=True, chunk=2,
                 menus=dict(symbols=len(ELS), distances=['cutoff-1e-3', 'cutoff+1e-3'], pair_cells=[c[0] for c in PCELLS], placements=[p[0] for p in PLACES], order=['a,b', 'b,a'],
-                           assembly_cells=[c[0] for c in GCELLS], assemblies=4, assembly_placements=len(places), shifts=shifts, permutations=['reverse', 'rotate', 'interleave']),
+                           assembly_cells=[c[0] for c in GCELLS], assemblies=4, assembly_placements=len(places), shifts=shifts, narrow_cells=[c[0] for c in NCELLS], narrow_pairs=['-'.join(p) for p in NPAIRS], narrow_grid='fractional separations %r^2 x {0, 0.3, 0.5} at two anchors' % (NGRID,), permutations=['reverse', 'rotate', 'interleave']),
                 bounds=dict(), rule='part A: one scenario per first symbol, all partners/distances/placements/cells/orders inside; non-trivial = the pair is bonded only through a periodic image',
                 assumptions=['radius and non-metal tables frozen at the pinned commit (mc/ref/bonds.py)', 'cells have perpendicular widths > 10.4 (pairs) / 7.4 (assemblies) > the largest cutoff 5.2',
                              'assembly pairs within 1e-6 of their cutoff are not compared'])
@@ -98,6 +112,28 @@ def run(sc, ctx):
             out['hashes'].add(h64((a, b)))
         if sc['a'] == 5:
             out['samples'] = [dict(part='A', pair=[a, 'Zr'], cutoff=cutoff(a, 'Zr'), placements=[p[0] for p in PLACES])]
+        return out
+    if sc['part'] == 'C':
+        cname, cell = NCELLS[sc['cell']]; a, b = NPAIRS[sc['pair']]
+        if min(perpendicular_widths(cell)) <= 5.2:
+            raise HarnessError('narrow cell outside the domain')
+        for f in itertools.product(NGRID, NGRID, [0.0, 0.3, 0.5]):
+            if f == (0.0, 0.0, 0.0):
+                continue
+            for anchor in ((0.1, 0.1, 0.1), (0.9, 0.6, 0.95)):
+                pos = wrap(np.array([np.array(anchor) @ cell, (np.array(anchor) + np.array(f)) @ cell]), cell)
+                exp, gray = ref_bonds(pos, [a, b], cell, margin=1e-6)
+                if gray:
+                    continue
+                got, err = call(lambda: detect_bonds(mkatoms([a, b], pos, cell)))
+                out['evals'] += 1; out['compared'] += 1
+                if err or as_pairs(got) != exp:
+                    out['violations'].append(viol('pair-rule', 'narrow-cell', '%s-%s in %s at fractional separation %r: detected %r, minimum-image rule says %r' % (a, b, cname, f, err[0] if err else as_pairs(got), exp), sc,
+                                                  elements=[a, b], positions=pos.tolist(), cell=cell.tolist()))
+                key = 'narrow %s' % ('bonded' if exp else 'apart')
+                out['outcomes'][key] = out['outcomes'].get(key, 0) + 1
+                out['nontrivial'] += 1 if exp else 0
+        out['hashes'].add(h64(('C', sc['cell'], sc['pair'])))
         return out
     # ---- part B
     cname, cell = GCELLS[sc['cell']]
